@@ -172,6 +172,29 @@ Proof.
       * apply (derivable_pt_lim_mult (fun t => A t - 1) (fun t => A t - 1)); exact HS.
 Qed.
 
+Lemma all_one_all_nz (w : Rvec) : all_one w = true -> all_nz w = true.
+Proof.
+  induction w as [|u w IH]; [reflexivity|]. cbn [all_one all_nz forallb]. intros H.
+  apply andb_prop in H as [Hu Hw]. fold (all_nz w). rewrite (IH Hw), andb_true_r. numR.
+  destruct (Reqb_spec u 1) as [->|]; [|discriminate Hu]. destruct (Reqb_spec 1 0); [lra|reflexivity].
+Qed.
+Lemma wdot_vdiv_nz (w d g : Rvec) : all_nz w = true -> length w = length g ->
+  wdot w d (vdiv g w) = dot d g.
+Proof.
+  revert d g; induction w as [|u w IH]; intros [|a d] [|b g] Hnz Hl; cbn in Hl; try lia; try reflexivity.
+  cbn [all_nz forallb] in Hnz. apply andb_prop in Hnz as [Hu Hnz]. numR.
+  destruct (Reqb_spec u 0) as [|Hu0]; [discriminate Hu|].
+  unfold vdiv. cbn [vmap2]. rewrite wdot_cons, dot_cons'. fold (vdiv g w). rewrite IH by (auto; lia).
+  numR. field. exact Hu0.
+Qed.
+Lemma vdiv_len (g w : Rvec) n : length g = n -> length w = n -> length (vdiv g w) = n.
+Proof. intros; unfold vdiv; apply vmap2_len; assumption. Qed.
+
+Section Variants.
+Variable rzv mav : bool.     (* the measured variants of FModel: the theorem holds for each of them *)
+Notation fgradR := (fgrad sqrt rzv mav).
+Notation fokR := (fok rzv mav).
+
 (* ---------- regular points ---------- *)
 Fixpoint fregular (w : Rvec) (f : fexprR) (x : Rvec) : Prop :=
   match f with
@@ -187,11 +210,12 @@ Fixpoint fregular (w : Rvec) (f : fexprR) (x : Rvec) : Prop :=
   | FCompM f w' _ rows => fregular w' f (mvec rows x)
   end.
 
-Lemma fgrad_len (f : fexprR) : forall w x, fwt f = true -> length x = fdim f -> length (fgrad sqrt w f x) = fdim f.
+Lemma fgrad_len (f : fexprR) : forall w x, fwt f = true -> length w = fdim f -> length x = fdim f ->
+  length (fgradR w f x) = fdim f.
 Proof.
   induction f as [n c|n|n|n|n c|f IH s|f IH s|f IHf g IHg|f IH c|f IH t|f IH a u c|f IHf g IHg|f IHf g IHg|f IH v|f IH w' n rows];
-    intros w x Hw Hx; cbn [fwt fdim fgrad] in *.
-  - rewrite rgrad_len; exact Hx.
+    intros w x Hw Hwl Hx; cbn [fwt fdim fgrad] in *.
+  - destruct rzv; [apply vdiv_len; [rewrite rgrad_len; exact Hx|exact Hwl]|rewrite rgrad_len; exact Hx].
   - rewrite vscal_len; exact Hx.
   - destruct (_ =? _)%num; [rewrite vconst_len|rewrite map_length]; exact Hx.
   - rewrite map_length; exact Hx.
@@ -211,20 +235,26 @@ Proof.
     unfold vadd. apply vmap2_len; rewrite vscal_len; [apply IHf; auto|rewrite He; apply IHg; auto; lia].
   - apply andb_prop in Hw as [Wf Hv]. apply Nat.eqb_eq in Hv.
     unfold vmul at 1. apply vmap2_len; [exact Hv|]. apply IH; auto. unfold vmul; apply vmap2_len; lia.
-  - apply andb_prop in Hw as [Hw _]. apply andb_prop in Hw as [Hw Hr]. apply mtvec_len. intros r Hin.
-    rewrite forallb_forall in Hr. apply Nat.eqb_eq. apply Hr. exact Hin.
+  - apply andb_prop in Hw as [Hw _]. apply andb_prop in Hw as [Hw Hr].
+    assert (Hrl : forall r, In r rows -> length r = n).
+    { intros r Hin. rewrite forallb_forall in Hr. apply Nat.eqb_eq. apply Hr. exact Hin. }
+    destruct mav; [apply vdiv_len; [apply mtvec_len; exact Hrl|exact Hwl]|apply mtvec_len; exact Hrl].
 Qed.
 
 (* ---------- the theorem ---------- *)
 Theorem fgrad_sound (f : fexprR) : forall w x,
-  fwt f = true -> fok w f = true -> length w = fdim f -> length x = fdim f -> fregular w f x ->
-  sdiff (fdim f) (feval sqrt w f) x (fun d => wdot w d (fgrad sqrt w f x)).
+  fwt f = true -> fokR w f = true -> length w = fdim f -> length x = fdim f -> fregular w f x ->
+  sdiff (fdim f) (feval sqrt w f) x (fun d => wdot w d (fgradR w f x)).
 Proof.
   induction f as [n c|n|n|n|n c|f IH s|f IH s|f IHf g IHg|f IH c|f IH t|f IH a u c|f IHf g IHg|f IHf g IHg|f IH v|f IH w' n rows];
     intros w x Hw Hok Hwl Hx Hreg; cbn [fwt fok fdim feval fgrad fregular] in *.
-  - (* Rosenbrock, unweighted space *)
+  - (* Rosenbrock: unweighted space, or repaired gradient (partials / weights) *)
     intros g d Hc. pose proof Hc as (_ & Hd & _).
-    rewrite (all_one_wdot w d _ Hok) by lia. apply (rosen_sdiff c n); exact Hc.
+    destruct rzv; cbn [andb orb] in Hok.
+    + assert (Hnz : all_nz w = true).
+      { apply orb_prop in Hok as [E|E]; [exact E|apply all_one_all_nz; exact E]. }
+      rewrite (wdot_vdiv_nz w d _ Hnz) by (rewrite rgrad_len; lia). apply (rosen_sdiff c n); exact Hc.
+    + rewrite (all_one_wdot w d _ Hok) by lia. apply (rosen_sdiff c n); exact Hc.
   - (* L2NormSquared *)
     intros g d Hc.
     pose proof (dpl_dot2 _ _ _ _ _ _ _ (curve_mul_const _ _ _ _ w Hc Hwl) Hc) as H2.
@@ -275,10 +305,10 @@ Proof.
   - (* QuadraticPerturb *)
     apply andb_prop in Hw as [Wf Hu]. apply Nat.eqb_eq in Hu.
     intros h d Hc. pose proof Hc as (_ & Hd & _).
-    pose proof (fgrad_len f w x Wf Hx) as Hgl.
+    pose proof (fgrad_len f w x Wf Hwl Hx) as Hgl.
     rewrite wdot_vadd_r by (unfold vadd; rewrite (vmap2_len _ _ _ (fdim f)); rewrite ?vscal_len; auto; lia).
     rewrite wdot_vadd_r by (rewrite vscal_len; lia). rewrite wdot_vscal_r. numR.
-    apply (dpl_eq _ _ (wdot w d (fgrad sqrt w f x) + a * (2 * wdot w d x) + wdot w d u + 0)); [ring|].
+    apply (dpl_eq _ _ (wdot w d (fgradR w f x) + a * (2 * wdot w d x) + wdot w d u + 0)); [ring|].
     apply derivable_pt_lim_plus; [|apply derivable_pt_lim_const].
     apply derivable_pt_lim_plus.
     + apply derivable_pt_lim_plus; [apply (IH w x Wf Hok Hwl Hx Hreg h d Hc)|].
@@ -298,7 +328,7 @@ Proof.
     intros h d Hc. pose proof Hc as (H0 & Hd & _).
     rewrite wdot_vadd_r by (rewrite !vscal_len, !fgrad_len; auto).
     rewrite !wdot_vscal_r. numR.
-    apply (dpl_eq _ _ (wdot w d (fgrad sqrt w f x) * feval sqrt w g (h 0) + feval sqrt w f (h 0) * wdot w d (fgrad sqrt w g x))).
+    apply (dpl_eq _ _ (wdot w d (fgradR w f x) * feval sqrt w g (h 0) + feval sqrt w f (h 0) * wdot w d (fgradR w g x))).
     { rewrite H0. ring. }
     apply (derivable_pt_lim_mult (fun t => feval sqrt w f (h t)) (fun t => feval sqrt w g (h t)));
       [apply (IHf w x Wf Of Hwl Hx Rf h d Hc)|rewrite He in Hc; apply (IHg w x Wg Og Hwg Hxg Rg h d Hc)].
@@ -309,7 +339,7 @@ Proof.
     intros h d Hc. pose proof Hc as (H0 & Hd & _).
     rewrite wdot_vadd_r by (rewrite !vscal_len, !fgrad_len; auto).
     rewrite !wdot_vscal_r. numR.
-    apply (dpl_eq _ _ ((wdot w d (fgrad sqrt w f x) * feval sqrt w g (h 0) - wdot w d (fgrad sqrt w g x) * feval sqrt w f (h 0))
+    apply (dpl_eq _ _ ((wdot w d (fgradR w f x) * feval sqrt w g (h 0) - wdot w d (fgradR w g x) * feval sqrt w f (h 0))
                        / Rsqr (feval sqrt w g (h 0)))).
     { rewrite H0. unfold Rsqr. field. exact Hnz. }
     apply (derivable_pt_lim_div (fun t => feval sqrt w f (h t)) (fun t => feval sqrt w g (h t)));
@@ -320,26 +350,40 @@ Proof.
     assert (Hxv : length (vmul x v) = fdim f) by (unfold vmul; apply vmap2_len; lia).
     rewrite <- wdot_vmul_shift, (vmul_comm v x).
     apply (IH w (vmul x v) Wf Hok Hwl Hxv Hreg (fun t => vmul (h t) v) (vmul d v)). apply curve_mul_const; [exact Hc|exact Hv].
-  - (* Comp with a matrix, between unweighted spaces *)
+  - (* Comp with a matrix: unweighted spaces (transpose), or the true adjoint W^-1 M^T W' *)
     apply andb_prop in Hw as [Hw Hw'l]. apply Nat.eqb_eq in Hw'l.
     apply andb_prop in Hw as [Hw Hr]. apply andb_prop in Hw as [Wf Hrows]. apply Nat.eqb_eq in Hrows.
-    apply andb_prop in Hok as [Hok Of]. apply andb_prop in Hok as [O1 O1'].
+    apply andb_prop in Hok as [Hok Of].
     assert (Hrl : forall r, In r rows -> length r = n).
     { intros r Hin. rewrite forallb_forall in Hr. apply Nat.eqb_eq. apply Hr. exact Hin. }
     intros h d Hc. pose proof Hc as (_ & Hd & _).
     assert (Hmx : length (mvec rows x) = fdim f) by (rewrite mvec_len; exact Hrows).
-    rewrite (all_one_wdot w d _ O1) by lia.
-    rewrite (dot_mtvec n rows _ d Hrl Hd); [|rewrite fgrad_len; auto].
-    rewrite <- (all_one_wdot w' (mvec rows d) _ O1') by (rewrite mvec_len; lia).
-    apply (IH w' (mvec rows x) Wf Of Hw'l Hmx Hreg (fun t => mvec rows (h t)) (mvec rows d)).
-    rewrite <- Hrows. apply (curve_mvec n); assumption.
+    pose proof (fgrad_len f w' (mvec rows x) Wf Hw'l Hmx) as Hgl.
+    assert (HIH : derivable_pt_lim (fun t => feval sqrt w' f (mvec rows (h t))) 0
+                    (wdot w' (mvec rows d) (fgradR w' f (mvec rows x)))).
+    { apply (IH w' (mvec rows x) Wf Of Hw'l Hmx Hreg (fun t => mvec rows (h t)) (mvec rows d)).
+      rewrite <- Hrows. apply (curve_mvec n); assumption. }
+    destruct mav; cbn [andb orb] in Hok.
+    + assert (Hnz : all_nz w = true).
+      { apply orb_prop in Hok as [E|E]; [exact E|apply andb_prop in E as [E _]; apply all_one_all_nz; exact E]. }
+      rewrite (wdot_vdiv_nz w d _ Hnz) by (rewrite mtvec_len; auto; lia).
+      rewrite (dot_mtvec n rows _ d Hrl Hd);
+        [|unfold vmul; rewrite (vmap2_len _ _ _ (fdim f)); auto].
+      rewrite <- wdot_as_dot_r. exact HIH.
+    + apply andb_prop in Hok as [O1 O1'].
+      rewrite (all_one_wdot w d _ O1) by lia.
+      rewrite (dot_mtvec n rows _ d Hrl Hd); [|rewrite Hgl; auto].
+      rewrite <- (all_one_wdot w' (mvec rows d) _ O1') by (rewrite mvec_len; lia).
+      exact HIH.
 Qed.
 
 (* Functional.derivative(x) = InnerProductOperator(gradient(x)) is the Frechet derivative *)
 Corollary functional_derivative_sound (f : fexprR) w x :
-  fwt f = true -> fok w f = true -> length w = fdim f -> length x = fdim f -> fregular w f x ->
-  hdiff (fdim f) 1 (fun y => [feval sqrt w f y]) x (fun d => [wdot w d (fgrad sqrt w f x)]).
+  fwt f = true -> fokR w f = true -> length w = fdim f -> length x = fdim f -> fregular w f x ->
+  hdiff (fdim f) 1 (fun y => [feval sqrt w f y]) x (fun d => [wdot w d (fgradR w f x)]).
 Proof. intros Hw Hok Hwl Hx Hr. apply sdiff_hdiff. apply fgrad_sound; assumption. Qed.
+
+End Variants.
 
 (* non-vacuity *)
 Definition ex_f : fexprR :=
@@ -347,9 +391,9 @@ Definition ex_f : fexprR :=
         (FScalarSum (FRScal (FTransl (FL1 2) [5; 5]) 2) 1).
 Definition ex_g : fexprR := FSum (FCompM (FL2Sq 1) [1] 2 [[1; 2]]) (FL1 2).
 Lemma ex_f_premises :
-  (fwt ex_f = true /\ fok [2; 3] ex_f = true /\ length [2; 3] = fdim ex_f /\ length [1; 2] = fdim ex_f /\
+  (fwt ex_f = true /\ fok false false [2; 3] ex_f = true /\ length [2; 3] = fdim ex_f /\ length [1; 2] = fdim ex_f /\
    fregular [2; 3] ex_f [1; 2]) /\
-  (fwt ex_g = true /\ fok [1; 1] ex_g = true /\ fregular [1; 1] ex_g [1; 2]).
+  (fwt ex_g = true /\ fok false false [1; 1] ex_g = true /\ fregular [1; 1] ex_g [1; 2]).
 Proof.
   cbn. numR.
   assert (E1 : Reqb 1 1 = true) by (destruct (Reqb_spec 1 1); [reflexivity|lra]).
@@ -369,7 +413,7 @@ Qed.
 Definition bad_f : fexprR := FCompM (FL2Sq 1) [1] 1 [[1]].
 Lemma fgrad_weighted_comp_refuted :
   fwt bad_f = true /\ length [2] = fdim bad_f /\ fregular [2] bad_f [1] /\
-  ~ sdiff (fdim bad_f) (feval sqrt [2] bad_f) [1] (fun d => wdot [2] d (fgrad sqrt [2] bad_f [1])).
+  ~ sdiff (fdim bad_f) (feval sqrt [2] bad_f) [1] (fun d => wdot [2] d (fgrad sqrt false false [2] bad_f [1])).
 Proof.
   repeat split; try reflexivity.
   intros H.
@@ -389,7 +433,7 @@ Qed.
 Definition bad_r : fexprR := FRosen 2 1.
 Lemma rosen_weighted_refuted :
   fwt bad_r = true /\ length [2; 2] = fdim bad_r /\ fregular [2; 2] bad_r [0; 0] /\
-  ~ sdiff (fdim bad_r) (feval sqrt [2; 2] bad_r) [0; 0] (fun d => wdot [2; 2] d (fgrad sqrt [2; 2] bad_r [0; 0])).
+  ~ sdiff (fdim bad_r) (feval sqrt [2; 2] bad_r) [0; 0] (fun d => wdot [2; 2] d (fgrad sqrt false false [2; 2] bad_r [0; 0])).
 Proof.
   repeat split; try reflexivity.
   intros H.
